@@ -13,6 +13,8 @@ declare -A RP=( [6258280]=C01 [519e8d3]=C01 [c6c7ccf]=C01 [938094a]=C01 [6d23c89
 : > $root/work.tsv
 for d in /verif/seeded/*/; do id=$(basename $d); prop=$(python3 -c "import json;print(json.load(open('$d/meta.json'))['breaks_property'])"); echo -e "seeded/$id\t$d/patch.diff\t$prop" >> $root/work.tsv; done
 for f in /verif/regressions/*.diff; do c=$(basename $f | cut -d- -f1); echo -e "regression/$(basename $f .diff)\t$f\t${RP[$c]}" >> $root/work.tsv; done
+# optional: SENS_FILTER=<extended regexp> restricts the work list (a subset re-run)
+if [ -n "${SENS_FILTER:-}" ]; then grep -E "$SENS_FILTER" $root/work.tsv > $root/work.f; mv $root/work.f $root/work.tsv; fi
 lane() {
     local l=$1 repo=$root/repo$1 sim=$root/sim$1 out=$root/out$1
     git -C /repo worktree add -q $repo HEAD
@@ -49,6 +51,6 @@ lane() {
 }
 for l in $(seq 0 $((nl-1))); do lane $l & done; wait
 git -C /repo worktree prune
-{ echo "# sensitivity run $(date -u +%FT%TZ) VERIF_SCALE=$scale lanes=$nl repo=$(git -C /repo rev-parse --short HEAD) verif=$(git -C /verif rev-parse --short HEAD) (scratch lanes under /tmp/sens; /repo untouched)"; cat $root/res*.txt | sort -k2; } > /verif/SENSITIVITY.txt
+{ echo "# sensitivity run $(date -u +%FT%TZ) filter=${SENS_FILTER:-none} VERIF_SCALE=$scale lanes=$nl repo=$(git -C /repo rev-parse --short HEAD) verif=$(git -C /verif rev-parse --short HEAD) (scratch lanes under /tmp/sens; /repo untouched)"; cat $root/res*.txt | sort -k2; } > /verif/SENSITIVITY.txt
 grep -cE "^DETECTED" /verif/SENSITIVITY.txt; grep -E "^(MISSED|ERROR|ALARM)" /verif/SENSITIVITY.txt
 rm -rf $root
